@@ -392,6 +392,19 @@ def bump(ctx):
         ctx.require(bound.get('account_id') == 'self.account_id', q, 'the unspent outputs offered for a fee bump are listed with account_id=%s, not the account of the transaction' % bound.get('account_id', 'the wallet default'), c)
 
 
+@PROP.obligation('C07.refresh-unconditional', canaries=[
+    mut.replace_expr('wallets', 'Wallet.utxos_update', 'transaction_in_db.count()', "transaction_in_db.count() and utxo['confirmations']", 'stored confirmations only refreshed by a non-zero report', nth=0),
+])
+def refresh_unconditional(ctx):
+    """The wallet selects inputs by the confirmation count, spent flag and value it STORED. Wherever a wallet method copies a reported
+    value (utxo['confirmations'], ...) into a database record, the copy is not conditional on that value being truthy: a report of 0
+    confirmations (reorganisation, lagging provider) lowers the stored count like any other."""
+    from .common_falsy import refresh_unconditional as run
+    n = run(ctx, [(W, lambda q: q.startswith('Wallet.'))],
+            'an output whose transaction dropped back to 0 confirmations keeps its old count and is selected as an input with min_confirms >= 1')
+    ctx.floor(n, 10, 'stores of reported values')
+
+
 @PROP.obligation('C07.defaults')
 def api_defaults(ctx):
     """Defaults of the parameters that decide this property for callers who do not pass them: only confirmed outputs are selected by default."""
